@@ -1,6 +1,7 @@
 #!/usr/bin/env python3
 """C07 — expiry is absolute and expired items are never observable."""
 import sys, os, json, time, datetime
+from concurrent.futures import ThreadPoolExecutor
 sys.path.insert(0, os.path.join(os.path.dirname(os.path.abspath(__file__)), "..", "lib"))
 from loccheck import *
 import extract_loc
@@ -70,10 +71,38 @@ def gen_case(rng, thorough, timed):
     gen_case.last_lives = lives
     return ops
 
+def lw_conclusive(o):
+    """the read saw the short-lived items before, really waited, and was answered after the instant"""
+    return (isinstance(o, dict) and "after" in o and o.get("waited") and o.get("end_ms", -1) > 0 and o.get("start_ms", 1) < 0
+            and any(i.endswith("short") for i in o.get("before") or []))
+
+
+def run_lockwait(drv, cases):
+    outs = run_cases(drv, cases, jobs=len(cases), per_chunk=1)
+    for attempt in range(2):       # timing slipped (loaded machine): try again, then give up on that scenario (counted)
+        redo = [k for k, o in enumerate(outs) if isinstance(o, dict) and "after" in o and not lw_conclusive(o)]
+        if not redo: break
+        for k, o in zip(redo, run_cases(drv, [cases[k] for k in redo], jobs=len(redo), per_chunk=1)):
+            outs[k] = o
+    for o in outs:
+        if isinstance(o, dict):
+            o["conclusive"] = bool(lw_conclusive(o))
+    return outs
+
+
 def main():
     ck = Check("C07")
     if "--replay" in sys.argv:
-        replay_main(ck, sys.argv[sys.argv.index("--replay") + 1])
+        path = sys.argv[sys.argv.index("--replay") + 1]
+        rc = (json.load(open(path)).get("replay") or {}).get("case") or {}
+        if rc.get("kind") == "c07.lockwait":
+            drv, _ = build_harness()
+            o = run_lockwait(drv, [rc])[0]
+            print(canon(o))
+            late = [i for i in (o.get("after") or []) if i.endswith("short")]
+            print("conclusive:", o.get("conclusive"), "returned after the instant:", late)
+            sys.exit(1 if (o.get("conclusive") and late) else 0)
+        replay_main(ck, path)
     pr = proof_part(ck, "C07", pre=extract_loc.regenerate if hasattr(extract_loc, "regenerate") else None)
     lr = LocRun(ck, []); lr.build()
     n = 300 if not ck.thorough else 6000
@@ -82,6 +111,14 @@ def main():
     for timed in [False] * n + [True] * nt:
         opss.append(gen_case(ck.rng, ck.thorough, timed)); livess.append(dict(gen_case.last_lives))
     cases = [{"kind": "loc", "state": st, "locs": ["a"], "ops": copy.deepcopy(o), "timeout_ms": 40000, "_lives": lv} for o, lv in zip(opss, livess) for st in ("indexed", "linear")]
+    # reads that wait for the state lock across an expiry instant (started alongside the histories: each takes 1.5-2.5 s of wall clock)
+    lw_reads = ("search", "findRules", "findCachedRules", "get", "locSearch", "locSearchRules", "locGet", "locEvent")
+    lw_cases = [{"kind": "c07.lockwait", "state": st, "read": r} for st in ("indexed", "linear") for r in lw_reads]
+    if ck.thorough:
+        lw_cases += [{"kind": "c07.lockwait", "state": st, "read": r, "hold_before_ms": hb, "release_after_ms": ra}
+                     for st in ("indexed", "linear") for r in lw_reads for hb, ra in ((250, 30), (300, 120), (600, 700), (800, 1400))]
+    lw_pool = ThreadPoolExecutor(max_workers=1)
+    lw_future = lw_pool.submit(run_lockwait, lr.drv, lw_cases)
     impl, model, mc = lr.run(cases, skip_if=clock_ambiguous, nontrivial=lambda c: True, jobs=64)
     # direct statement of the property on the real outputs: nothing whose expiry instant is <= the op's clock is ever returned,
     # and the instant of an item does not move without a write
@@ -140,6 +177,20 @@ def main():
                 ck.violation("%s returned %s after its expiry instant when the storage write of its purge failed (write %d, %s state)" % (op["op"], sorted(seen), c["failAt"], c["state"]),
                              {"case": {kk: (v if kk != "ops" else v[: k + 1]) for kk, v in c.items()}, "impl": r}, tag="purgefault")
                 break
+    # lock-wait scenarios: a read granted the lock after the instant must not return the expired item
+    for c, o in zip(lw_cases, lw_future.result()):
+        lr.stats["lockwait_cases"] += 1
+        if not isinstance(o, dict) or "after" not in o:
+            ck.violation("lock-wait scenario failed to run: %s" % canon(o)[:300], {"case": c, "impl": o}, tag="internal")
+            continue
+        if not o.get("conclusive"):
+            lr.stats["lockwait_inconclusive"] += 1
+            continue
+        ck.count(c)
+        late = [i for i in o["after"] if i.endswith("short")]
+        if late:
+            ck.violation("%s (%s state) started %.0f ms before the expiry instant of %s, waited for the state lock and answered %.0f ms after the instant, still returning it" % (
+                c["read"], c["state"], -o["start_ms"], late, o["end_ms"]), {"case": c, "impl": o}, tag="lockwait")
     for c in cases[:2]:
         ck.sample({"state": c["state"], "ops": c["ops"][:7]})
     lr.finish_cov("per history 3 facts and 2 rules written with an expiry in one of the encodings (numeric seconds, RFC3339, ttl number, ttl duration string; already expired, "
@@ -150,4 +201,5 @@ def main():
     proof_verdict(ck, pr)
     ck.finish()
 
-main()
+if __name__ == "__main__":
+    main()
